@@ -250,3 +250,145 @@ Theorem build_of_index_of : forall w,
   tmpl_okb w = true -> werr (build_of w) = None ->
   widx (build_of w) = widx (index_of w) /\ werr (index_of w) = None.
 Proof. intros w Ht He. unfold build_of, index_of in *. apply build_reindex_same; auto. Qed.
+
+(* ---------- completeness: every object the indexer visits has its full path as a key *)
+Definition has_key (k:str) (d:pindex) : Prop := dget k d <> None.
+
+Lemma dset_has_key : forall d k k' v, has_key k d -> has_key k (dset k' v d).
+Proof. intros d k k' v H. unfold has_key in *. rewrite dget_dset. destruct (eqs k' k); [discriminate|exact H]. Qed.
+Lemma dset_sets_key : forall d k v, has_key k (dset k v d).
+Proof. intros d k v. unfold has_key. rewrite dget_dset, ix_eqs_refl. discriminate. Qed.
+
+Lemma visit_mono : forall build fp ps o st k, has_key k (widx st) -> has_key k (widx (visit build fp ps o st)).
+Proof.
+  intros build fp ps o st k H. unfold visit. destruct (mult_is_true o).
+  - set (st0 := if build then _ else st).
+    assert (E0 : widx st0 = widx st) by (unfold st0; destruct build; [destruct (is_scope o)|]; reflexivity).
+    destruct (dget fp (widx st0)) as [[p1 o1|l]|]; cbn [widx]; rewrite E0; try apply dset_has_key; exact H.
+  - cbn [widx]. apply dset_has_key. exact H.
+Qed.
+
+Lemma visit_sets : forall build fp ps o st, werr (visit build fp ps o st) = None -> has_key fp (widx (visit build fp ps o st)).
+Proof.
+  intros build fp ps o st. unfold visit. destruct (mult_is_true o).
+  - set (st0 := if build then _ else st).
+    destruct (dget fp (widx st0)) as [[p1 o1|l]|]; cbn [widx werr]; intros H; try discriminate; apply dset_sets_key.
+  - cbn [widx]. intros _. apply dset_sets_key.
+Qed.
+
+Lemma fold_kids_mono : forall (f:nat -> obj -> wst -> wst) k l,
+  Forall (fun o => forall i st, has_key k (widx st) -> has_key k (widx (f i o st))) l ->
+  forall i st, has_key k (widx st) -> has_key k (widx (fold_kids f l i st)).
+Proof.
+  intros f k l H. induction H as [|o l Ho Hl IH]; intros i st Hk; cbn [fold_kids]; [exact Hk|].
+  apply IH. apply Ho. exact Hk.
+Qed.
+
+Lemma walk_mono : forall build o prefix ps st k, has_key k (widx st) -> has_key k (widx (walk build prefix ps o st)).
+Proof.
+  intros build o. induction o as [h ws a|h ks a IH] using obj_ind2; intros prefix ps st k Hk; rewrite walk_eq.
+  - destruct (werr st); [exact Hk|]. cbv zeta. destruct (skip_obj build _); [exact Hk|].
+    pose proof (visit_mono build (join_path prefix (oname (ohdr (Def h ws a)))) ps (Def h ws a) st k Hk) as H1.
+    destruct (werr (visit build _ ps (Def h ws a) st)); [exact H1|]. destruct (type_missing build _); exact H1.
+  - destruct (werr st); [exact Hk|]. cbv zeta. destruct (skip_obj build _); [exact Hk|].
+    pose proof (visit_mono build (join_path prefix (oname (ohdr (Scp h ks a)))) ps (Scp h ks a) st k Hk) as H1.
+    destruct (werr (visit build _ ps (Scp h ks a) st)); [exact H1|]. destruct (type_missing build _); [exact H1|].
+    apply fold_kids_mono; [|exact H1].
+    eapply Forall_impl; [|exact IH]. intros o Ho i st' Hk'. apply Ho. exact Hk'.
+Qed.
+
+(* the object at position q below w is reached by reindex_phil_objects: no object on the way
+   (w included, the object itself included) is a hidden template (is_template < 0) *)
+Fixpoint visible (w:obj) (q:pos) {struct q} : bool :=
+  negb (skip_obj false w) &&
+  match q with
+  | [] => true
+  | i :: r =>
+      match w with
+      | Scp _ ks _ => match nth_error ks i with Some k => visible k r | None => false end
+      | Def _ _ _ => false
+      end
+  end.
+
+Lemma walk_err_none_start : forall build prefix ps o st, werr (walk build prefix ps o st) = None -> werr st = None.
+Proof.
+  intros build prefix ps o st H. destruct (werr st) eqn:E; [|reflexivity].
+  rewrite (walk_err_sticky build prefix ps o st s E) in H. congruence.
+Qed.
+
+Lemma fold_present : forall (f:nat -> obj -> wst -> wst) key l n k,
+  (forall i o s e, werr s = Some e -> f i o s = s) ->
+  (forall i o st k', has_key k' (widx st) -> has_key k' (widx (f i o st))) ->
+  nth_error l n = Some k ->
+  forall j st,
+  (forall st', werr (f (j + n) k st') = None -> has_key key (widx (f (j + n) k st'))) ->
+  werr (fold_kids f l j st) = None ->
+  has_key key (widx (fold_kids f l j st)).
+Proof.
+  intros f key l. induction l as [|o l IH]; intros n k Hst Hmono Hn j st Hk Hfin; [destruct n; discriminate|].
+  cbn [fold_kids] in *. destruct n as [|n]; cbn [nth_error] in Hn.
+  - inversion Hn; subst o. rewrite Nat.add_0_r in Hk.
+    apply fold_kids_mono.
+    + apply Forall_forall. intros x _ i st' H. apply Hmono. exact H.
+    + apply Hk. destruct (werr (f j k st)) eqn:E; [|reflexivity].
+      rewrite (fold_kids_err_sticky f l (S j) _ s Hst E) in Hfin. congruence.
+  - apply (IH n k Hst Hmono Hn (S j)); [|exact Hfin].
+    intros st' H. replace (S j + n) with (j + S n) in * by lia. apply Hk. exact H.
+Qed.
+
+Theorem walk_present : forall o prefix ps st q o' pre',
+  werr (walk false prefix ps o st) = None ->
+  visible o q = true -> locate prefix o q = Some (o', pre') ->
+  has_key (join_path pre' (oname (ohdr o'))) (widx (walk false prefix ps o st)).
+Proof.
+  induction o as [h ws a|h ks a IH] using obj_ind2; intros prefix ps st q o' pre' Hfin Hv Hl.
+  - pose proof (walk_err_none_start _ _ _ _ _ Hfin) as E0.
+    destruct q as [|i r]; [|cbn in Hl; discriminate].
+    cbn [locate] in Hl. inversion Hl; subst o' pre'. clear Hl.
+    cbn [visible] in Hv. rewrite andb_true_r in Hv. apply negb_true_iff in Hv.
+    rewrite walk_eq in *. rewrite E0 in *. cbv zeta in *. rewrite Hv in *.
+    pose proof (visit_sets false (join_path prefix (oname (ohdr (Def h ws a)))) ps (Def h ws a) st) as Hs.
+    destruct (werr (visit false _ ps (Def h ws a) st)) eqn:W; [congruence|].
+    cbn [type_missing andb] in *. apply Hs. reflexivity.
+  - pose proof (walk_err_none_start _ _ _ _ _ Hfin) as E0.
+    assert (Hv' : skip_obj false (Scp h ks a) = false /\
+                  match q with [] => true | i :: r => match nth_error ks i with Some k => visible k r | None => false end end = true).
+    { destruct q; cbn [visible] in Hv; apply andb_true_iff in Hv; destruct Hv as [Hv Hq]; apply negb_true_iff in Hv; auto. }
+    clear Hv. destruct Hv' as [Hv Hq].
+    rewrite walk_eq in *. rewrite E0 in *. cbv zeta in *. rewrite Hv in *.
+    set (fp := join_path prefix (oname (ohdr (Scp h ks a)))) in *.
+    pose proof (visit_sets false fp ps (Scp h ks a) st) as Hs.
+    destruct (werr (visit false fp ps (Scp h ks a) st)) eqn:W; [congruence|].
+    cbn [type_missing andb] in *.
+    destruct q as [|i r].
+    + cbn [locate] in Hl. inversion Hl; subst o' pre'. clear Hl.
+      apply fold_kids_mono; [|apply Hs; reflexivity].
+      apply Forall_forall. intros x _ j st' H. apply walk_mono. exact H.
+    + cbn [locate] in Hl. destruct (nth_error ks i) as [k|] eqn:N; [|discriminate].
+      eapply (fold_present _ _ ks i k); [| |exact N| |exact Hfin].
+      * intros j o s e He. apply walk_err_sticky with (e:=e). exact He.
+      * intros j o st' k' H. apply walk_mono. exact H.
+      * intros st' Hk. cbn [Nat.add]. rewrite Forall_forall in IH.
+        apply (IH k (nth_error_In _ _ N) _ _ st' r o' pre' Hk Hq Hl).
+Qed.
+
+Theorem index_of_present : forall w q o pre,
+  werr (index_of w) = None -> visible w q = true -> locate [] w q = Some (o, pre) ->
+  has_key (join_path pre (oname (ohdr o))) (widx (index_of w)).
+Proof. intros w q o pre He Hv Hl. unfold index_of in *. eapply walk_present; eauto. Qed.
+
+(* with soundness: if no other position of the tree has that full path, the entry holds exactly this object *)
+Theorem index_of_unique : forall w q o pre,
+  werr (index_of w) = None -> visible w q = true -> locate [] w q = Some (o, pre) ->
+  (forall q' o' pre', locate [] w q' = Some (o', pre') ->
+     join_path pre' (oname (ohdr o')) = join_path pre (oname (ohdr o)) -> q' = q) ->
+  exists e, dget (join_path pre (oname (ohdr o))) (widx (index_of w)) = Some e
+            /\ forall q' o', In (q', o') (objs_of e) -> q' = q /\ o' = o.
+Proof.
+  intros w q o pre He Hv Hl Hu.
+  pose proof (index_of_present w q o pre He Hv Hl) as Hk. unfold has_key in Hk.
+  destruct (dget (join_path pre (oname (ohdr o))) (widx (index_of w))) as [e|] eqn:D; [|congruence].
+  exists e. split; [reflexivity|]. intros q' o' Hin.
+  destruct (index_of_good w _ e D q' o' Hin) as [pre'' [L' P']].
+  pose proof (Hu q' o' pre'' L' P') as Eq. subst q'. rewrite Hl in L'. inversion L'; subst. split; reflexivity.
+Qed.
